@@ -477,6 +477,47 @@ def P21():
     )
 
 
+def P22():
+    """Eleven states (two-digit indices x10 / data(10, 0) / jacobian(10, 9)), a chain x_i' = x_i + dt x_{i+1}."""
+    dt = V("dt")
+    names = [f"x{i}" for i in range(11)]
+    xs = [V(n) for n in names]
+    u, w = V("u"), V("w")
+    upd = {names[i]: xs[i] + dt * xs[i + 1] for i in range(10)}
+    upd["x10"] = xs[10] + dt * u + w * xs[2] * dt
+    return Program(
+        id="P22-eleven",
+        state=names,
+        control=["u", "w"],
+        calibration=[],
+        update=upd,
+        process_noise={"u": 0.25, "w": 0.5},
+        sensors={"ends": {"a": xs[0] + xs[10], "b": xs[9] * xs[2]}, "mid": {"m": xs[5] + 2 * xs[1]}},
+        sensor_noise={"ends": {"a": 0.5, "b": 0.25}, "mid": {"m": 0.125}},
+        note="two-digit row/column indices; x10 sorts between x1 and x2",
+    )
+
+
+def P23():
+    """Numeric literals of every kind carried through code generation: non-representable decimals, tiny and huge
+    magnitudes, a rational, a large integer, negative constants."""
+    a, b, g, dt = V("a"), V("b"), V("g"), V("dt")
+    return Program(
+        id="P23-numbers",
+        state=["a", "b"],
+        control=["g"],
+        calibration=[],
+        update={
+            "a": a + C(0.1) * dt * b - C(1e-7) * a * a + C(Fraction(1, 3)) * g * dt + C(123456789.125) * dt * dt,
+            "b": b * C(-0.3) + C(2**40) * dt * dt * dt + C(1e22) * dt * dt * dt * dt * dt + g * C(2.5e-9) - C(7) * a / C(3),
+        },
+        process_noise={"g": 0.1},
+        sensors={"s": {"p": C(0.7) * a - C(1e-3) * b, "q": b / C(3) + C(1000001) * a}},
+        sensor_noise={"s": {"p": 0.3, "q": 1e-3}},
+        note="literals: 0.1, 1e-7, 1/3, 123456789.125, -0.3, 2^40, 1e22, 2.5e-9, 7/3, 0.7, 1e-3, 1000001",
+    )
+
+
 def quick_programs():
     return [P1(), P3(), P8()]
 
@@ -487,7 +528,7 @@ def all_fixed():
 
 def catalogue():
     """Every fixed program, including the model-level-only ones (replay looks programs up by id here)."""
-    return all_fixed() + [P11(), P18(), P21()]
+    return all_fixed() + [P11(), P18(), P21(), P22(), P23()]
 
 
 def with_noise(p, process=None, sensor=None, pid=None):
